@@ -40,3 +40,6 @@ pub assume_specification<T, P> [std::option::Option::<T>::filter] (o: std::optio
     requires o is Some ==> p.requires((&o->0,)),
     ensures o is None ==> r is None, r is Some ==> r == o, o is Some ==> (r is Some <==> p.ensures((&o->0,), true));
 pub assume_specification [std::path::Path::to_path_buf] (p: &Path) -> (r: PathBuf);
+pub assume_specification [str::trim] (s: &str) -> (r: &str);
+pub assume_specification [str::trim_end] (s: &str) -> (r: &str);
+pub assume_specification [str::trim_start] (s: &str) -> (r: &str);
